@@ -33,6 +33,15 @@ NoSpectatorExplicitH(I) == HAtoms(I) \subseteq RCNodes(I)
 ChangesInsideCentre(I) == \A v \in INodes(I) : I.tG[v] # I.tH[v] => v \in RCNodes(I)
 
 LeftComponents(rc) == LG!NComp([n |-> rc.n, lab |-> [k \in 1..rc.n |-> 0], hc |-> [k \in 1..rc.n |-> 0], adj |-> rc.oG])
+(* components of the pattern side of a centre template / of the substrate, in the direction of the application *)
+PatternComponents(rc, invert) ==
+   LG!NComp([n |-> rc.n, lab |-> [k \in 1..rc.n |-> 0], hc |-> [k \in 1..rc.n |-> 0], adj |-> IF invert THEN rc.oH ELSE rc.oG])
+SubstrateComponents(c) ==
+   LET M == IF c.invert THEN c.H ELSE c.G
+   IN LG!NComp([n |-> M.n, lab |-> [k \in 1..M.n |-> 0], hc |-> [k \in 1..M.n |-> 0], adj |-> M.adj])
+(* documented guard of the component-aware search (strict_cc_count, the default): with more substrate fragments than
+   pattern components the strategy "comp" returns nothing *)
+CompGuard(c, rc) == c.strategy = "comp" /\ ~c.full /\ SubstrateComponents(c) > PatternComponents(rc, c.invert)
 
 (* some heavy atom receives two (or more) explicit hydrogens *)
 TwoExplicitHToOneAtom(I) ==
@@ -46,6 +55,7 @@ Verdict(c) ==
       ELSE IF rc.n = 0 THEN "skip:reaction-without-changed-bond"
       ELSE IF ~ConsistentH(rc, c.mode) \/ ~NoSpectatorExplicitH(I) THEN "skip:centre-hydrogens-not-written-consistently"
       ELSE IF ~c.full /\ ~ChangesInsideCentre(I) THEN "skip:hydrogen-or-charge-change-outside-the-centre"
+      ELSE IF CompGuard(c, rc) THEN "skip:comp-strategy-with-more-substrate-fragments-than-pattern-components(documented-guard)"
       ELSE IF \E k \in DOMAIN c.got : c.got[k].r = c.want.r /\ c.got[k].p = c.want.p THEN "ok"
       ELSE "own-template-does-not-regenerate-the-reaction:" \o c.what \o
            (* known findings are identified by their mechanism (see known_findings.json) *)
